@@ -292,5 +292,7 @@ def run(chk, prog):
     for i in r8:
         chk.check(i["ok"], "R5", i["site"], "(C08/R1) %s" % i["what"].split("\n")[0][:220], "C08-R1:%s" % i.get("key", "ok"))
     chk.floor("R5-reader", len(r5) + len(r8), 10)
+    # ---- R6: the source-map table is rebuilt whenever the displacement field changes (a stale table moves the grid by old offsets) ----
+    K.offset_table_sync(chk, prog, "R6")
     chk.notes.append("C02: Lagrange/partition-of-unity identities for orders 1-4 over nodes read from updateSM/genHInfo; "
                      "exact-zero structure at f=0; frac/ipart pairing; bounds-guarded weights. Not decided: rounding over all floats.")
